@@ -60,6 +60,9 @@ func verifDir() string {
 type ExitError struct {
 	Code int
 	Msg  string
+	// DriverAPI: the in-process driver does not compile against this tree's
+	// public API (pkg/moq changed shape): the library-level halves cannot run
+	DriverAPI bool
 }
 
 func (e *ExitError) Error() string { return e.Msg }
